@@ -786,6 +786,19 @@ def check_from_graphs(w, sl, inputs, op):
         w.report({"C08"}, f"from_graphs|{what}|{cls}", detail)
         sl.tainted = True
 
+    # The stored representation (static descriptor vs. change) is
+    # implementation defined: if it differs from the case-analysis model it is
+    # adopted - read back *before* any observable is asked for, so that a
+    # reactant()/product() call that damages the reaction graph is still seen
+    # by the coherence check that follows this function.
+    adopted = None
+    try:
+        rv0, problems0 = R.guarded(R.snapshot, g, w.universe)
+        if R.diff_views(rv0, sl.model.view()) and not problems0:
+            adopted = R.adopt(g)
+    except Exception:  # noqa: BLE001
+        pass
+
     try:
         formed = {frozenset(b) for b in g.get_formed_bonds()}
         broken = {frozenset(b) for b in g.get_broken_bonds()}
@@ -829,14 +842,9 @@ def check_from_graphs(w, sl, inputs, op):
             return fail(f"{which}()-differs:{','.join(sorted(set(bad) | set(problems)))}",
                         json.dumps({f: {"real": repr(rv.get(f))[:300], "want": repr(ev.get(f))[:300]} for f in bad[:3]}))
     w.stats["from_graphs_observables_ok"] += 1
-    # representation: adopt the real one if it differs from the model's
-    try:
-        rv, problems = R.guarded(R.snapshot, g, w.universe)
-        if R.diff_views(rv, sl.model.view()) and not problems:
-            sl.model = R.adopt(g)
-            w.stats["from_graphs_adopted"] += 1
-    except Exception:  # noqa: BLE001
-        pass
+    if adopted is not None:
+        sl.model = adopted
+        w.stats["from_graphs_adopted"] += 1
 
 
 # ----------------------------------------------------------------------
